@@ -215,6 +215,11 @@ def check_structured(cx, http, DS, rng, cfg):
             d = ir.to_header()
             p = http.parse_if_range_header(d)
             cx.eq("if-range", dt, d, (p.date, p.etag), (exp, None), "C06/if-range-date")
+            # the date as the application has it (naive = UTC, or with its own offset), whatever the process's time zone
+            ir = DS.IfRange(date=dt)
+            d = ir.to_header()
+            p = http.parse_if_range_header(d)
+            cx.eq("if-range", dt, d, (p.date, p.etag), (exp, None), "C06/if-range-date")
             ts = exp.timestamp()
             d = http.http_date(ts)
             cx.eq("date", ts, d, http.parse_date(d), exp, "C06/date-from-timestamp")
@@ -326,6 +331,21 @@ def content_ranges(cx, http, DS, maxlen):
         d = c.to_header()
         p = http.parse_content_range_header(d)
         cx.eq("content-range", (None, None, L), d, (p.start, p.stop, p.length) if p else None, (None, None, L), "C06/content-range-star")
+        if L is not None and L >= 2:
+            # fault: a set() that is refused leaves the object as it was; what it serialises to afterwards still parses back
+            c = DS.ContentRange("bytes", 0, 1, L)
+            for bad in ((L + 3, 1, L), (1, 1, L), (None, 1, L)):
+                try:
+                    c.set(*bad)
+                except (AssertionError, TypeError, ValueError):
+                    pass
+                try:
+                    d = c.to_header()
+                    p = http.parse_content_range_header(d)
+                    got = (p.units, p.start, p.stop, p.length) if p else None
+                except Exception as e:  # noqa: BLE001
+                    d, got = "<to_header raised>", type(e).__name__
+                cx.eq("content-range", ("after refused set", bad), d, got, ("bytes", 0, 1, L), "C06/content-range-after-refused-set")
     e = DS.ETags(star_tag=True)
     cx.eq("etags", "*", e.to_header(), http.parse_etags(e.to_header()).star_tag, True, "C06/etags-star")
 
